@@ -45,6 +45,8 @@ REQUIRED_THEOREMS = [
     'add_src_eq', 'sub_src_eq', 'sq_src_eq', 'mul_src_eq', 'mul_same_src_eq', 'divmod_src_eq', 'mod_src_eq',
     'mod_N_src_eq', 'monic_src_eq', 'monic_lc_src_eq', 'gcd_src_eq', 'gcdext_src_eq', 'invert_src_eq',
     'powmod_src_eq', 'powmod_N_src_eq', 'degree_src_eq', 'to_int_src_eq', 'from_int_src_eq', 'divmod_src_spec',
+    'b_degree_src_eq', 'b_sq_src_eq', 'b_mul_src_eq', 'b_mod_src_eq', 'b_divmod_src_eq', 'b_gcd_src_eq',
+    'b_gcdext_src_eq', 'b_invert_src_eq',
 ]
 
 RULE = (
